@@ -174,7 +174,7 @@ def shards(tier: str, seed: int) -> list[dict]:
     if tier == "thorough":
         sel = seed % 18
         for part in range(64):
-            out.append({"mode": "graphs", "stratum": "n3e2", "p": sel // 6, "o": sel % 6, "part": part, "parts": 64, "sample_stride": 20})
+            out.append({"mode": "graphs", "stratum": "n3e2", "p": sel // 6, "o": sel % 6, "part": part, "parts": 64, "sample_stride": 60})
     from . import c02b
 
     out += c02b.shards(tier, seed)
